@@ -3,8 +3,9 @@ import Operon.Model.CoordDfs
   `CoordinationSystem.execute_operation`.
 
   The adversary fixes: the outcome of every checkpoint evaluation (one per `advance` call, four at most),
-  what the work function does to the system from inside (nothing / manual kill of some operation / shutdown /
-  watchdog run / maintenance run) and whether it then returns or raises, and what `validate_fn` does.
+  what each callback — the four checkpoint conditions, the work function, `validate_fn` — does to the system from
+  inside before it answers (nothing / manual kill of some operation / shutdown / watchdog run / maintenance run,
+  after some virtual time), whether the work function then returns or raises, and what `validate_fn` answers.
   Whether the k-th acquisition is blocked is decided by the state of the system, not by the adversary.
 -/
 namespace Operon.Coord
@@ -28,6 +29,13 @@ structure Adv where
   workOk : Bool
   resultNone : Bool := false   -- the work function returned exactly `None` (only the cell's `output` shows it)
   val : ValOut
+  /-- what the i-th checkpoint callback does to the system before it answers (a manual kill, a shutdown, a watchdog
+      or maintenance run fired from inside the condition), after `cpTick i` of virtual time -/
+  cpAct : Nat → WorkAct := fun _ => .none
+  cpTick : Nat → Nat := fun _ => 0
+  /-- the same for `validate_fn` -/
+  valAct : WorkAct := .none
+  valTick : Nat := 0
 
 /-- what happened, in order -/
 inductive Ev where
@@ -53,17 +61,35 @@ def applyAct (s : Sys) : WorkAct → Sys
   | .watchdog => (wdExecute s).1
   | .maint => (maintenance s).1
 
-/-- the context object after code running inside `work_fn` may have aborted the operation: still the shared
-    object when listed; otherwise what `abort_operation` left of it -/
+/-- the context object after code running inside a callback may have aborted the operation: still the shared
+    object when listed; what `abort_operation` left of it when it was listed before and is not any more; untouched
+    when it was not listed to begin with (an operation ended earlier, from inside one of its own callbacks, goes on
+    with a context nobody else can reach) -/
 def refetch (before after : Sys) (c : Ctx) : Ctx :=
   match after.ctx? c.id with
   | some c' => c'
   | none =>
-    { c with phase := .g0, phaseAt := before.now
-             acquired := c.acquired.filter fun r =>
-               match before.locks r with
-               | some l => l.owner ≠ some c.id
-               | none => true }
+    match before.ctx? c.id with
+    | none => c
+    | some _ =>
+      { c with phase := .g0, phaseAt := before.now
+               acquired := c.acquired.filter fun r =>
+                 match before.locks r with
+                 | some l => l.owner ≠ some c.id
+                 | none => true }
+
+/-- a callback acts before it answers: virtual time passes, the act happens, the context is re-read -/
+def cbAct (s : Sys) (c : Ctx) (a : WorkAct) (tick : Nat) : Sys × Ctx :=
+  (applyAct { s with now := s.now + tick } a,
+   refetch { s with now := s.now + tick } (applyAct { s with now := s.now + tick } a) c)
+
+/-- `controller.advance(ctx)` with the i-th checkpoint callback: `advance` reads the phase first, then evaluates the
+    condition (which may act on the system — also end this very operation, which resets the context to G0 —
+    before it answers), and on PASSED enters the successor of the phase it read -/
+def advanceCb (s : Sys) (c : Ctx) (adv : Adv) (i : Nat) : Sys × Ctx × Bool :=
+  let p := cbAct s c (adv.cpAct i) (adv.cpTick i)
+  let r := advance p.1.now { p.2 with phase := c.phase } (adv.cp i)
+  if r.2 then (p.1.setCtx r.1, r.1, true) else (p.1, p.2, false)
 
 /-- the acquisition loop of G1: stops at the first BLOCKED (ResourceError) or unknown id (ValueError) -/
 def acqLoop : List Nat → Sys → Ctx → Sys × Ctx × List Ev × Bool
@@ -83,48 +109,42 @@ def failWith (s : Sys) (c : Ctx) (log : List Ev) (atWork : Option Sys) : ExecRes
 /-- G2 → M and commit -/
 def execCommit (s : Sys) (c : Ctx) (adv : Adv) (log : List Ev) (atWork : Option Sys) : ExecRes :=
   let c1 := { c with valPassed := true }
-  let s1 := s.setCtx c1
-  let a := advance s1.now c1 (adv.cp 3)
-  let s2 := s1.setCtx a.1
-  if a.2 then
-    { sys := (finish s2 a.1).1, success := true, phase := .m, log := log ++ [.cp 3 true, .complete], atWork := atWork }
-  else failWith s2 a.1 (log ++ [.cp 3 false]) atWork
+  let a := advanceCb (s.setCtx c1) c1 adv 3
+  if a.2.2 then
+    { sys := (finish a.1 a.2.1).1, success := true, phase := .m, log := log ++ [.cp 3 true, .complete], atWork := atWork }
+  else failWith a.1 a.2.1 (log ++ [.cp 3 false]) atWork
 
 /-- S → G2 and validation -/
 def execValidate (s : Sys) (c : Ctx) (adv : Adv) (log : List Ev) (atWork : Option Sys) : ExecRes :=
-  let a := advance s.now c (adv.cp 2)
-  let s1 := s.setCtx a.1
-  if a.2 then
+  let a := advanceCb s c adv 2
+  if a.2.2 then
+    let p := cbAct a.1 a.2.1 adv.valAct adv.valTick
     match adv.val with
-    | .absent => execCommit s1 a.1 adv (log ++ [.cp 2 true]) atWork
-    | .yes => execCommit s1 a.1 adv (log ++ [.cp 2 true, .validate true]) atWork
-    | .no => failWith s1 a.1 (log ++ [.cp 2 true, .validate false]) atWork
-    | .raise => failWith s1 a.1 (log ++ [.cp 2 true, .validate false]) atWork
-  else failWith s1 a.1 (log ++ [.cp 2 false]) atWork
+    | .absent => execCommit a.1 a.2.1 adv (log ++ [.cp 2 true]) atWork
+    | .yes => execCommit p.1 p.2 adv (log ++ [.cp 2 true, .validate true]) atWork
+    | .no => failWith p.1 p.2 (log ++ [.cp 2 true, .validate false]) atWork
+    | .raise => failWith p.1 p.2 (log ++ [.cp 2 true, .validate false]) atWork
+  else failWith a.1 a.2.1 (log ++ [.cp 2 false]) atWork
 
 /-- the S phase: run the work function (and whatever it does to the system) -/
 def execWork (s : Sys) (c : Ctx) (adv : Adv) (log : List Ev) : ExecRes :=
-  let s1 := applyAct { s with now := s.now + adv.tick } adv.act
-  let c1 := refetch { s with now := s.now + adv.tick } s1 c
+  let p := cbAct s c adv.act adv.tick
   if adv.workOk then
-    let c2 := { c1 with execDone := true }
-    execValidate (s1.setCtx c2) c2 adv (log ++ [.work true]) (some s)
-  else failWith s1 c1 (log ++ [.work false]) (some s)
+    let c2 := { p.2 with execDone := true }
+    execValidate (p.1.setCtx c2) c2 adv (log ++ [.work true]) (some s)
+  else failWith p.1 p.2 (log ++ [.work false]) (some s)
 
 /-- `CoordinationSystem.execute_operation` -/
 def exec (s : Sys) (op : Nat) (prio : Int) (req : List Nat) (adv : Adv) : ExecRes :=
   let st := s.start op prio
-  let a0 := advance st.1.now st.2 (adv.cp 0)          -- result ignored by the code
-  let s0 := st.1.setCtx a0.1
-  let q := acqLoop req s0 a0.1
-  let log0 := Ev.cp 0 a0.2 :: q.2.2.1
+  let a0 := advanceCb st.1 st.2 adv 0          -- result ignored by the code
+  let q := acqLoop req a0.1 a0.2.1
+  let log0 := Ev.cp 0 a0.2.2 :: q.2.2.1
   if q.2.2.2 then
     let c1 := { q.2.1 with resAcq := true }
-    let s1 := q.1.setCtx c1
-    let a1 := advance s1.now c1 (adv.cp 1)
-    let s2 := s1.setCtx a1.1
-    if a1.2 then execWork s2 a1.1 adv (log0 ++ [.cp 1 true])
-    else failWith s2 a1.1 (log0 ++ [.cp 1 false]) none
+    let a1 := advanceCb (q.1.setCtx c1) c1 adv 1
+    if a1.2.2 then execWork a1.1 a1.2.1 adv (log0 ++ [.cp 1 true])
+    else failWith a1.1 a1.2.1 (log0 ++ [.cp 1 false]) none
   else failWith q.1 q.2.1 log0 none
 
 /-! ### one layer up: `IntegratedCell.execute` (operon_ai/cell.py)
